@@ -165,11 +165,14 @@ def random_plan(seed, idx):
             if r.random() < 0.08:
                 i3 = ids(0)  # a second SD message in the same datagram
                 second = [["sub", i3[0], i3[1], i3[2], r.choice([1, 2]), r.choice([0, 1, 3, INF_TTL]), r.choice([0, 1]), [ep(p)]]]
-            b.sub(p, ids(ins), eg, r.choice([1, 1, 2, 3, INF_TTL]), counter, ch, eps, extra, second=second)
+            pre = None
+            if r.random() < 0.15:
+                pre = [r.choice([["suback", 0x5555, 1, 1, 1, 3, 0], ["suback", 0x5555, 1, 1, 1, 0, 0], ["find", 0x7777, 0xFFFF, 0xFF, 0xFFFFFFFF, 3], ["offer", 0x6666, 1, 1, 0, 3]])]
+            b.sub(p, ids(ins), eg, r.choice([1, 1, 2, 3, INF_TTL]), counter, ch, eps, extra, second=second, pre=pre)
             if r.random() < 0.12:
                 b.ops[-1]["port"] = 40001  # a second SD endpoint on that peer's host (own session numbering)
         elif k < 0.55:
-            b.sub(p, ids(ins), eg, 0, counter, ch, eps)
+            b.sub(p, ids(ins), eg, 0, counter, ch, eps, pre=[["suback", 0x5555, 1, 1, 1, r.choice([0, 3]), 0]] if r.random() < 0.15 else None)
         elif k < 0.70:
             b.preboot(p)
             if r.random() < 0.7:
